@@ -51,6 +51,7 @@ def roundtrip(p):
         bs = 1 + _sel(a[0], n + 1)
         lb = 1 + _sel(a[1], n + 1)
         rows = [dict(a=a[2 + i], b=a[2 + n + i]) for i in range(n)]
+        del FA.UNMODELLED[:]
         with Env():
             # the same source.pipe(dump_to_file(...)) observable is subscribed twice (re-export / retry): each run must write exactly the rows
             holder = FA.FFile()
@@ -78,6 +79,9 @@ def roundtrip(p):
             if bypath and opened != [('x.parquet', 'wb')] * 2:
                 return fail(stage='dump_to_file', problem='open_obj protocol', opened=opened)
             f = holder
+            if FA.UNMODELLED:
+                from vp.harness import Inconclusive
+                raise Inconclusive('the pyarrow stub does not model %s' % sorted(set(FA.UNMODELLED)))
             for w in f.writes:
                 if w > bs or w == 0:
                     return fail(stage='dump_to_file', problem='batch of %d rows written with batch_size %d' % (w, bs), writes=f.writes)
@@ -85,6 +89,9 @@ def roundtrip(p):
             end = []
             src_, kw2 = ('x.parquet', dict(open_obj=lambda name, mode='rb', **k: f)) if bypath else (f, {})
             P.load_from_file(src_, batch_size=lb, **kw2).subscribe(on_next=got.append, on_error=lambda e: end.append(('ERR', repr(e))), on_completed=lambda: end.append('C'), scheduler=ImmediateScheduler())
+            if FA.UNMODELLED:
+                from vp.harness import Inconclusive
+                raise Inconclusive('the pyarrow stub does not model %s' % sorted(set(FA.UNMODELLED)))
             if got != rows or end != ['C']:
                 return fail(stage='load_from_file', rows=rows, load_batch=lb, observed=got, end=end)
         return True
